@@ -9,7 +9,7 @@ from harness.framework import Suite
 PID = "C07"
 TRANSLATE_ALGO = ["AlgoNode", "AlgoSort", "AlgoRedirect", "AlgoCat"]   # regenerated on every run from tree_utils.py (redirect_tree, _sort_tree, cat_tree), tree.py / node.py (node handles)
 DRIVER_FILES = ["SwcVerif/Model/AlgoRunRedirect.lean", "SwcVerif/Model/AlgoRunCat.lean", "SwcVerif/Model/PyCat.lean"]
-LEAN_MODS = ["SwcVerif.Props.C07", "SwcVerif.Props.C07Cat", "SwcVerif.Props.C07Gen"]
+LEAN_MODS = ["SwcVerif.Props.C07", "SwcVerif.Props.C07Cat", "SwcVerif.Props.C07Gen", "SwcVerif.Props.C07CatGen"]
 THEOREMS = [
     "C07.rootPath_spec", "C07.redirect_pids", "C07.redirect_edges", "C07.redirect_root", "C07.redirect_types", "C07.redirect_at_root",
     "C07.translate_coincides", "C07.cat_separate", "C07.cat_merged",
@@ -17,6 +17,10 @@ THEOREMS = [
     "RefineRedirect.redirect_core", "C07.generated_parent", "C07.generated_redirect_eq_model", "C07.generated_redirect_root",
     "C07.generated_redirect_sorted", "C07.generated_redirect_sorted_eq_model",
     "C07.second_wfr", "C07.cat_separate_wfr", "C07.cat_separate_sorted", "Relabel.isTreeTable_map", "C07.sorted_wf_gen", "C07.cat_merged_sorted",
+    # cat_tree as translated (Gen/AlgoCat.lean): the generated function = the model, and the model's theorems transported to it
+    "RefineCat.delete_single", "RefineCat.for1_loop", "RefineCat.for2_loop", "RefineCat.sortTree6_refines", "RefineCat.cat_core_root",
+    "RefineCat.cat_redirected", "RefineCat.cat_core", "RefineCat.cat_refines",
+    "C07.catPre_shape", "C07.generated_cat_eq_model", "C07.generated_cat_separate_sorted", "C07.generated_cat_merged_sorted",
 ]
 TRUSTED = ["hand-written models Model/Redirect.lean of redirect_tree / cat_tree (tied by the c07.redirect and c07.cat correspondence: parents, node identity, "
            "positions and types after the final sort compared exactly); the final sort is C05's model"]
